@@ -562,6 +562,11 @@ def default_of(node, env=None):
             return (True, n) if ok else (UNKNOWN, None)
         return True, d
     if fam == "dict":
+        if isinstance(d, (list, tuple)) and all(isinstance(x, (list, tuple)) and len(x) == 2 for x in d):
+            try:
+                d = dict(d)  # a default written as a sequence of pairs is that dict
+            except TypeError:
+                return UNKNOWN, None
         if isinstance(d, dict):
             if node.get("keyf") is None and node.get("valf") is None:
                 return True, dict(d)
